@@ -10,6 +10,8 @@ import (
 	"fmt"
 	"go/token"
 	"go/types"
+	"sort"
+	"strings"
 
 	"golang.org/x/tools/go/ssa"
 )
@@ -39,11 +41,50 @@ func (eng *Engine) autoInvs(fr *Frame, li *loopInfo, phiEnv map[*ssa.Phi]string)
 	return out
 }
 
+// frameInvs: the function's frame condition as an automatic loop invariant for
+// every heap variable the loop writes (so that "nothing else changed" survives the loop).
+func (eng *Engine) frameInvs(fr *Frame, li *loopInfo, st *State) []string {
+	if fr.parent != nil || fr.fc == nil || fr.entry == nil {
+		return nil
+	}
+	allow, free, ok := fr.frameAllow(fr.entry)
+	if !ok {
+		return nil
+	}
+	ws := fr.loopWrites(li)
+	if ws.allHeaps {
+		return nil
+	}
+	var names []string
+	for n := range ws.names {
+		if isHeapVar(n) && !free[n] && !strings.HasPrefix(n, "G_") {
+			names = append(names, n)
+		}
+	}
+	sort.Strings(names)
+	var out []string
+	for _, hv := range names {
+		f := fr.frameFormula(hv, allow, fr.entry, st.get(hv))
+		if f != "true" {
+			out = append(out, f)
+		}
+	}
+	return out
+}
+
 func (eng *Engine) inferredInv(fr *Frame, li *loopInfo, st *State, phiEnv map[*ssa.Phi]string) []string {
-	return eng.autoInvs(fr, li, phiEnv)
+	return append(eng.autoInvs(fr, li, phiEnv), eng.frameInvs(fr, li, st)...)
 }
 
 func (eng *Engine) inferredCheck(fr *Frame, li *loopInfo, st *State, g string, env map[*ssa.Phi]string, phase string) {
+	for k, t := range eng.frameInvs(fr, li, st) {
+		suffix := ""
+		if phase == "keep" {
+			suffix = fmt.Sprintf(".b%d", fr.top().curBlk)
+		}
+		fr.vc.addObl(&Obligation{Name: fmt.Sprintf("%s#loop%d.frameinv.%d.%s%s", fr.vc.unit, li.ordinal, k, phase, suffix), Kind: "inv." + phase,
+			Props: fr.props(), Guard: g, Goal: t, Src: "frame condition as loop invariant (automatic)", Pos: fr.vc.eng.pos(token.NoPos)})
+	}
 	for k, t := range eng.autoInvs(fr, li, env) {
 		suffix := ""
 		if phase == "keep" {
